@@ -189,6 +189,52 @@ class _NormProblem(Problem):
         return env
 
 
+def _unroll_const_loops(c: Ctx, f: Func) -> ast.AST:
+    """A copy of f's body in which every `for <targets> in <module-level tuple/list literal>` is replaced by its body repeated once
+    per element, the targets substituted by the element's expressions (a table-driven loop is the same program as the
+    straight-line code it abbreviates)."""
+    import copy
+    fn = copy.deepcopy(f.node)
+
+    def table_of(it: ast.AST):
+        if isinstance(it, ast.Name):
+            d = f.module.defs.get(it.id)
+            v = getattr(d, "value", None)
+            if isinstance(v, (ast.Tuple, ast.List)) and it.id not in {x.id for x in ast.walk(f.node) if isinstance(x, ast.Name) and isinstance(x.ctx, ast.Store)}:
+                return v
+        if isinstance(it, (ast.Tuple, ast.List)):
+            return it
+        return None
+
+    class R(ast.NodeTransformer):
+        def visit_For(self, node: ast.For):
+            self.generic_visit(node)
+            tab = table_of(node.iter)
+            if tab is None or node.orelse or any(isinstance(x, (ast.Break, ast.Continue)) for b in node.body for x in ast.walk(b)):
+                return node
+            out: list[ast.stmt] = []
+            for e in tab.elts:
+                if isinstance(node.target, ast.Name):
+                    sub = {node.target.id: e}
+                elif isinstance(node.target, ast.Tuple) and isinstance(e, (ast.Tuple, ast.List)) and len(e.elts) == len(node.target.elts) \
+                        and all(isinstance(t, ast.Name) for t in node.target.elts):
+                    sub = {t.id: v for t, v in zip(node.target.elts, e.elts)}
+                else:
+                    return node
+
+                class S(ast.NodeTransformer):
+                    def visit_Name(self, n: ast.Name):
+                        if isinstance(n.ctx, ast.Load) and n.id in sub:
+                            return ast.copy_location(copy.deepcopy(sub[n.id]), n)
+                        return n
+                for b in node.body:
+                    out.append(S().visit(copy.deepcopy(b)))
+            return out or node
+    fn = R().visit(fn)
+    ast.fix_missing_locations(fn)
+    return fn
+
+
 def rule_norm(c: Ctx) -> RuleResult:
     r = RuleResult("NORM", "normalize is the first core rule everywhere, and what it stores into state.src has passed, on every path, "
                            "through a complete CR LF / CR -> LF normalisation and the NUL replacement")
@@ -212,8 +258,12 @@ def rule_norm(c: Ctx) -> RuleResult:
     # process() runs the chain in order
     proc = c.p.func("parser_core.py:ParserCore.process")
     loops = [n for n in own_nodes(proc.node) if isinstance(n, ast.For)]
-    ok = len(loops) == 1 and isinstance(loops[0].iter, ast.Call) and U(loops[0].iter.func).endswith("getRules") \
-        and not any(isinstance(x, ast.Call) and U(x.func) in ("reversed", "sorted") for x in ast.walk(loops[0].iter))
+    it0 = loops[0].iter if loops else None
+    if isinstance(it0, ast.Name):
+        ds0 = [n.value for n in own_nodes(proc.node) if isinstance(n, ast.Assign) and any(isinstance(t, ast.Name) and t.id == it0.id for t in n.targets)]
+        it0 = ds0[0] if len(ds0) == 1 else it0
+    ok = len(loops) == 1 and isinstance(it0, ast.Call) and U(it0.func).endswith("getRules") \
+        and not any(isinstance(x, ast.Call) and U(x.func) in ("reversed", "sorted") for x in ast.walk(it0))
     r.add("process|order", c.where(proc, proc.node), proc.short, "for rule in self.ruler.getRules(''): rule(state)",
           "discharged" if ok else "violation",
           "the core chain is executed in registration order" if ok else "ParserCore.process does not simply iterate the compiled chain")
@@ -221,7 +271,8 @@ def rule_norm(c: Ctx) -> RuleResult:
     f = norm.func
     st = f.node.args.args[0].arg
     src = f"{st}.src"
-    cfg = c.cfg(f)
+    from ..cfg import CFG as _CFG
+    cfg = _CFG(_unroll_const_loops(c, f))
     prob = _NormProblem(c, f, src)
     res = solve(cfg, prob, widen_after=10**9)
     stores = [n for n in cfg.nodes if n.kind == "stmt" and isinstance(n.ast, ast.Assign) and any(U(t) == src for t in n.ast.targets)]
